@@ -22,6 +22,7 @@ func init() {
 }
 
 func checkC14(c *Ctx) {
+	c.checkLockPairing("locks.paired", "internal/par", "internal/mod/mvs", "internal/mod/modrequirements")
 	// ownership of the shared graph and work-set state
 	c.checkFieldWriters("ownership.field-writers", "internal/mod/mvs", "Graph", map[string][]string{
 		"selected": {"NewGraph", "(*Graph).Require"}, "required": {"NewGraph", "(*Graph).Require"}, "isRoot": {"NewGraph", "(*Graph).Require"},
